@@ -270,6 +270,83 @@ theorem isPartition_runFrom (d : Nat) (bases : List (List Nat)) (h : bases.Nodup
     (hr : runFrom d bases ops = .ok cells) : IsPartition d bases.length cells :=
   isPartition_foldlM ops _ _ (isPartition_bases d bases h) hr
 
+/-! ### `&` of two hierarchical topologies -/
+
+theorem ancB_iff (a b : Cell) : ancB a b = true ↔ Anc a b := by
+  unfold ancB Anc
+  simp [List.isPrefixOf_iff_prefix]
+
+theorem anc_comparable {a b c : Cell} (h1 : Anc a c) (h2 : Anc b c) : Anc a b ∨ Anc b a := by
+  rcases List.prefix_or_prefix_of_prefix h1.2 h2.2 with h | h
+  · exact Or.inl ⟨h1.1.trans h2.1.symm, h⟩
+  · exact Or.inr ⟨h2.1.trans h1.1.symm, h⟩
+
+theorem anc_antisymm {a b : Cell} (h1 : Anc a b) (h2 : Anc b a) : a = b := by
+  cases a; cases b
+  simp only [Anc] at h1 h2
+  simp only [Cell.mk.injEq]
+  exact ⟨h1.1, List.IsPrefix.eq_of_length_le h1.2 h2.2.length_le⟩
+
+theorem anc_trans {a b c : Cell} (h1 : Anc a b) (h2 : Anc b c) : Anc a c :=
+  ⟨h1.1.trans h2.1, h1.2.trans h2.2⟩
+
+theorem pairwise_apart_of_ne {l : List Cell} (h : l.Pairwise Apart) {a b : Cell} (ha : a ∈ l) (hb : b ∈ l) (hne : a ≠ b) :
+    Apart a b := by
+  induction l with
+  | nil => cases ha
+  | cons c t ih =>
+    rw [List.pairwise_cons] at h
+    rcases List.mem_cons.1 ha with ha | ha
+    · rcases List.mem_cons.1 hb with hb | hb
+      · exact absurd (ha.trans hb.symm) hne
+      · rw [ha]; exact h.1 _ hb
+    · rcases List.mem_cons.1 hb with hb | hb
+      · rw [hb]; exact (h.1 _ ha).symm
+      · exact ih h.2 ha hb
+
+/-- in a non-overlapping set, a cell has at most one ancestor-or-self -/
+theorem unique_anc {l : List Cell} (h : l.Pairwise Apart) {a b c : Cell} (ha : a ∈ l) (hb : b ∈ l)
+    (h1 : Anc a c) (h2 : Anc b c) : a = b := by
+  apply Classical.byContradiction
+  intro hne
+  have hap := pairwise_apart_of_ne h ha hb hne
+  rcases anc_comparable h1 h2 with h' | h'
+  · exact hap.1 h'
+  · exact hap.2 h'
+
+theorem hand_pairwise (d : Nat) (A B : List Cell) (hA : A.Pairwise Apart) (hB : B.Pairwise Apart) :
+    (hand d A B).Pairwise Apart := by
+  unfold hand canon
+  rw [(isort_perm _ _).pairwise_iff (fun h => Apart.symm h), List.pairwise_append]
+  refine ⟨hA.filter _, hB.filter _, ?_⟩
+  intro a ha b hb
+  obtain ⟨haA, ha2⟩ := List.mem_filter.1 ha
+  obtain ⟨hbB, hb2⟩ := List.mem_filter.1 hb
+  obtain ⟨b0, hb0, hb0a⟩ := List.any_eq_true.1 ha2
+  simp only [Bool.and_eq_true, Bool.not_eq_true', List.any_eq_true] at hb2
+  obtain ⟨⟨a0, ha0, ha0b⟩, hnot⟩ := hb2
+  rw [ancB_iff] at hb0a ha0b
+  have hbA : b ∉ A := by
+    intro h
+    have := List.contains_iff_mem.2 h
+    rw [this] at hnot; cases hnot
+  constructor
+  · intro hab
+    -- a0 and a are both ancestors of b inside A, b0 and b both ancestors of b inside B
+    have e1 : a0 = a := unique_anc hA ha0 haA ha0b hab
+    have e2 : b0 = b := unique_anc hB hb0 hbB (anc_trans hb0a hab) ⟨rfl, List.prefix_refl _⟩
+    subst e2
+    have : a = b0 := anc_antisymm hab hb0a
+    subst this
+    exact hbA haA
+  · intro hba
+    have e2 : b0 = b := unique_anc hB hb0 hbB hb0a hba
+    have e1 : a0 = a := unique_anc hA ha0 haA (anc_trans ha0b hba) ⟨rfl, List.prefix_refl _⟩
+    subst e1
+    have : a0 = b := anc_antisymm ha0b hba
+    subst this
+    exact hbA haA
+
 /-! ### the multi-indices of a box -/
 
 theorem length_multiIndices (shape : List Nat) : (multiIndices shape).length = shape.foldr (· * ·) 1 := by
